@@ -35,14 +35,19 @@
                     fuel-bounded reachability is the transitive closure; accepted -> 5.5.2.3 and, unconditionally, 5.6
                                                                               (C04_accepted_cycles_variables, C04_spec_reachable_from,
                                                                                C04_accepted_spreads_possible, C04_accepted_valid_sections)
-    NOT proved: the converse for 5.3.1 / 5.3.3 (valid -> the field visitor is silent), the equivalences
-    for 5.2.3.1 (subscription root), 5.3.2 (FieldsInSetCanMerge / SameResponseShape), the converse for 5.5.2.1 / 5.5.2.2 / 5.8 (valid -> the rule is silent), hence
-    validate_verdict itself; validate_error_located.  These are covered on every run by the
-    correspondence check and the Spec oracle only. *)
+                  - the converse directions for 5.3.1 / 5.3.3, 5.5.2.1 - 5.5.2.3 and 5.8, and with them
+                    validate_verdict up to 5.2.3.1 and 5.3.2: accepted <-> all other sections hold and the
+                    subscription check and the overlapping-fields pass (in the model's terms) find nothing
+                                                                              (C04_fields_valid_silent, C04_spreads_valid_no_primary,
+                                                                               C04_variables_valid_no_primary, C04_verdict_up_to_two_rules_partial)
+    NOT proved: the equivalences for 5.2.3.1 (subscription root: addFieldSelections against the Spec's
+    CollectFields) and 5.3.2 (FieldsInSetCanMerge / SameResponseShape), hence validate_verdict itself;
+    validate_error_located.  These are covered on every run by the correspondence check and the
+    Spec oracle only. *)
 From Coq Require Import List NArith.
 From ApiFu Require Import Base.Sexp Vld.Ast Vld.Inspect Vld.InspectProofs Vld.TypeInfoModel Vld.TypeInfoPure Vld.ValidatorModel Vld.ValidSpec
      Vld.Hyps Vld.ProofsCommon Vld.ProofsDirectives Vld.ProofsArguments Vld.ProofsFragDecl Vld.ProofsValues
-     Vld.ProofsCycles Vld.ProofsVarsOrder Vld.ProofsOrder Vld.ProofsOperations Vld.ProofsTotal Vld.Enumerate Vld.ProofsFields Vld.ProofsMemo Vld.ValidatorProofs Vld.ProofsSpreads Vld.ProofsSecondary Vld.ProofsSecondaryAll Vld.ProofsSpecReach Vld.ProofsVarsSpec Vld.ProofsDepth Vld.ProofsDepthRule Vld.MemoTransfer Vld.ProofsMemoConverse Vld.MemoEquiv Vld.ProofsTypeInfoValues Vld.Witness.
+     Vld.ProofsCycles Vld.ProofsVarsOrder Vld.ProofsOrder Vld.ProofsOperations Vld.ProofsTotal Vld.Enumerate Vld.ProofsFields Vld.ProofsMemo Vld.ValidatorProofs Vld.ProofsSpreads Vld.ProofsSecondary Vld.ProofsSecondaryAll Vld.ProofsSpreadsSpec Vld.ProofsFieldsConverse Vld.ProofsVarsConverse Vld.ProofsComplete Vld.ProofsSpecReach Vld.ProofsVarsSpec Vld.ProofsDepth Vld.ProofsDepthRule Vld.MemoTransfer Vld.ProofsMemoConverse Vld.MemoEquiv Vld.ProofsTypeInfoValues Vld.Witness.
 Import ListNotations.
 
 (** ** determinism: acceptance is a function of schema, features and document alone *)
@@ -344,6 +349,51 @@ Theorem C04_validate_ok_doc_ok_partial : forall pi S F D,
   (fields_defined S F D = true /\ valid_5_3_1 S F D = true).
 Proof. exact validate_ok_doc_ok_partial. Qed.
 
+(** ** the converse directions: the Spec's sections leave a rule group without (primary) errors
+    5.3.1 / 5.3.3 with root types and type conditions: the first visitor of validateFields reports
+    nothing and every selection set has a composite parent type. *)
+Theorem C04_fields_valid_silent : forall S F D,
+  schema_ok S = true ->
+  valid_root S D = true -> valid_5_5_1 S F D = true -> valid_5_3_1 S F D = true -> valid_5_3_3 S F D = true ->
+  (forall d o, In d D -> In o (ssels_ss S F (model_def_scope S F d) (def_sub d)) -> good S (fst o)) /\
+  r_errs (inspect (fields_enter S F) pop (tree_doc (pti_doc (q_unwrap_obj repaired) S F D)) rst0) = [].
+Proof. exact fields_valid_silent. Qed.
+(** 5.5.2.1 - 5.5.2.3: validateFragmentSpreads reports no primary error *)
+Theorem C04_spreads_valid_no_primary : forall pi, order_ok pi -> forall S F D,
+  schema_impls_ok S = true -> NoDup (frag_names D) -> forall errs,
+  valid_5_5_2_1 D = true -> valid_5_5_2_2 D = true -> valid_5_5_2_3 S F D = true ->
+  rule_fragment_spreads repaired pi S F (pti_doc (q_unwrap_obj repaired) S F D) = Done errs -> primary errs = [].
+Proof. exact spreads_valid_no_primary. Qed.
+(** 5.8.1 - 5.8.5: validateVariables reports no primary error.  [schema_defaults_ok]: a non-null
+    directive argument or input object field has no [null] default (the one case in which TypeInfo's
+    "this location has a default" and the specification's differ). *)
+Theorem C04_variables_valid_no_primary : forall pi S F D errs,
+  order_ok pi -> schema_ok S = true -> schema_defaults_ok S = true -> valid_5_5_1_1 D = true ->
+  valid_5_8_1 D = true -> valid_5_8_2 S F D = true -> valid_5_8_3 S F D = true -> valid_5_8_4 S F D = true -> valid_5_8_5 S F D = true ->
+  rule_variables pi S (pti_doc (q_unwrap_obj repaired) S F D) = Done errs -> primary errs = [].
+Proof. exact variables_valid_no_primary_schema. Qed.
+
+(** ** validate_verdict up to two rules (partial)
+    Accepted <-> every section of chapter 5 other than 5.2.3.1 and 5.3.2 holds in the Spec's
+    formulation, and the subscription check and the overlapping-fields pass — these two stated in the
+    model's terms ([sub_ok]: addFieldSelections collects exactly one response name; the pass with the
+    memo reports no primary error) — find nothing.  What separates this from validate_verdict is the
+    equivalence of these two with the Spec's CollectFields / FieldsInSetCanMerge. *)
+Theorem C04_verdict_up_to_two_rules_partial : forall pi S F D,
+  order_ok pi ->
+  schema_ok S = true -> schema_args_ok S = true -> schema_impls_ok S = true -> schema_defaults_ok S = true ->
+  (validate_model_memo repaired pi S F D = Done [] <->
+   (valid_5_2_1_1 D = true /\ valid_5_2_2_1 D = true /\ valid_root S D = true /\
+    valid_5_3_1 S F D = true /\ valid_5_3_3 S F D = true /\
+    valid_5_4 S F D = true /\
+    valid_5_5_1 S F D = true /\ valid_5_5_2_1 D = true /\ valid_5_5_2_2 D = true /\ valid_5_5_2_3 S F D = true /\
+    valid_5_6 S F D = true /\
+    valid_5_7 S D = true /\
+    valid_5_8_1 D = true /\ valid_5_8_2 S F D = true /\ valid_5_8_3 S F D = true /\ valid_5_8_4 S F D = true /\ valid_5_8_5 S F D = true) /\
+   (forall d, In d D -> sub_ok repaired (pti_doc (q_unwrap_obj repaired) S F D) (pti_def (q_unwrap_obj repaired) S F d) = true) /\
+   (forall e2, rule_fields_m repaired pi S F (pti_doc (q_unwrap_obj repaired) S F D) = Done e2 -> primary e2 = [])).
+Proof. exact verdict_up_to_two_rules. Qed.
+
 (** ** rule groups against sections of the specification *)
 (** 5.7.1 – 5.7.3 (directives defined, in valid locations, unique per location): no hypothesis *)
 Theorem C04_rule_directives_iff : forall S F D,
@@ -528,6 +578,10 @@ Print Assumptions C04_accepted_valid_sections.
 Print Assumptions C04_accepted_variable_usages_allowed.
 Print Assumptions C04_usage_allowed_at_named_nonnull.
 Print Assumptions C04_validate_ok_doc_ok_partial.
+Print Assumptions C04_fields_valid_silent.
+Print Assumptions C04_spreads_valid_no_primary.
+Print Assumptions C04_variables_valid_no_primary.
+Print Assumptions C04_verdict_up_to_two_rules_partial.
 Print Assumptions C04_rule_directives_iff.
 Print Assumptions C04_rule_fragment_declarations_iff.
 Print Assumptions C04_rule_operations_iff_partial.
